@@ -12,7 +12,7 @@ RULE = ("one case = (entry point GET-consent / POST-decision, response_type, cli
         "non-trivial = distinct case whose redirect_uri or client is not the happy-path one")
 ASSUMPTIONS = ["reference integrator (memserver.py): client.check_redirect_uri is exact membership, default = first registered URI",
                "hostile characters that make the error constructor raise are C20's subject and are not generated here",
-               "Flask / Django integrations are not driven (core server only)"]
+               "the Flask and Django integrations (request wrappers, response builders, configuration) are driven on the same store; their answer is compared with the core server's"]
 
 CLIENTS = [
     {"id": "c1", "secret": "s1", "uris": ["https://good/cb", "https://good/cb2?keep=1&x=a+b", "https://good/cb3?legacy=&native&tenant=acme"], "response_types": ms.ALL_RESPONSE_TYPES,
@@ -92,7 +92,7 @@ def build_request(c):
     if c["secret_param"]:
         add("client_secret", "whatever")
     method = "GET" if c["op"] == "consent" else "POST"
-    place = c["place"]
+    place = c["place"] if method == "POST" else "query"          # a GET request has no form body
     q, f = [], {}
     for i, (k, v) in enumerate(params):
         if place == "query" or (place == "split" and i % 2 == 0):
@@ -111,8 +111,11 @@ def build_request(c):
     return Req(method, uri, f, {}, None)
 
 
-def server(c):
-    store, srv, rp = ms.build(scopes_supported=c["supported"], oidc=True, require_nonce=c["require_nonce"])
+FRAMEWORKS = [None, "flask", "django"]
+
+
+def server(c, framework=None):
+    store, srv, rp = ms.build(scopes_supported=c["supported"], oidc=True, require_nonce=c["require_nonce"], framework=framework)
     for cl in CLIENTS:
         store.clients[cl["id"]] = Client(cl["id"], cl["secret"], cl["uris"], "openid profile zzz", ms.ALL_GRANT_TYPES, cl["response_types"], cl["method"])
     for cl in CLIENTS:
@@ -165,22 +168,39 @@ def canon_response(r):
     return {"local": {"status": r.status, "error": body.get("error", "?")}}
 
 
-def impl(c):
-    store, srv = server(c)
+def impl_one(c, framework):
+    store, srv = server(c, framework)
     req = build_request(c)
     user = store.users[1] if c["user"] else None
     try:
         if c["op"] == "consent":
             req.user = user
-            try:
-                srv.get_consent_grant(req, user)
-                return {"consent": True}
-            except OAuth2Error as e:
-                return canon_response(srv.handle_error_response(None, e))
-        r = srv.create_authorization_response(req, grant_user=store.users[1] if c["approve"] else None)
+            def consent(request, end_user):
+                try:
+                    srv.get_consent_grant(request, end_user)
+                    return {"consent": True}
+                except OAuth2Error as e:
+                    return srv.handle_error_response(request, e)
+            if framework is None:
+                r = consent(req, user)
+            else:
+                srv.consent_view = consent
+                r = ms.fw_call(srv, req, "consent_view", end_user=user)
+            return r if isinstance(r, dict) else canon_response(r)
+        r = ms.fw_call(srv, req, "create_authorization_response", grant_user=store.users[1] if c["approve"] else None)
         return canon_response(r)
     except Exception as e:
         return {"raised": type(e).__name__ + ": " + str(e)[:100]}
+
+
+def impl(c):
+    """the same request against the core server and against the Flask and Django integrations (their request wrappers and response builders)"""
+    out = impl_one(c, None)
+    for fw in FRAMEWORKS[1:]:
+        o = impl_one(c, fw)
+        if project_one(o) != project_one(out):
+            out = dict(out, **{"_" + fw: o})        # only a differing answer is kept (and compared)
+    return out
 
 
 def model_line(c):
@@ -199,10 +219,18 @@ def model_line(c):
     return {"op": c["op"], "cfg": cfg, "req": r, "approve": c["approve"], "user": c["user"]}
 
 
-def project(c, out):
+def project_one(out):
     if "redirect" in out:
         return {"redirect": out["redirect"]}
     return {k: v for k, v in out.items() if not k.startswith("_")}
+
+
+def project(c, out):
+    p = project_one(out)
+    for fw in FRAMEWORKS[1:]:
+        if "_" + fw in out:
+            p["differs:" + fw] = project_one(out["_" + fw])
+    return p
 
 
 def model_canon(mo):
@@ -214,9 +242,17 @@ def model_canon(mo):
 
 
 def oracle(c, out):
+    v = oracle_one(c, out, "core")
+    for fw in FRAMEWORKS[1:]:
+        if "_" + fw in out:
+            v += oracle_one(c, out["_" + fw], fw)
+    return v
+
+
+def oracle_one(c, out, fw):
     v = []
     def bad(what, **sig):
-        v.append((what, dict(sig, op=c["op"])))
+        v.append(((what if fw == "core" else f"[{fw} integration] {what}"), dict(sig, op=c["op"], **({} if fw == "core" else {"fw": fw}))))
     if "raised" in out:
         bad(f"authorization endpoint raised {out['raised']}", kind="crash", exc=out["raised"].split(":")[0]); return v
     cl = {x["id"]: x for x in CLIENTS}.get(c["cid"])
